@@ -652,7 +652,7 @@ def _tasks(tier, seed):
     # G1: single part, every payload over the 5-symbol alphabet, all 2-way splits + bytewise;
     # beyond that length every payload over the newline-structure alphabet {CR, LF, x}
     g1_len = {"crlf": 7, "lf": 7, "cr": 7} if thorough else {"crlf": 5, "lf": 5, "cr": 5}
-    g1_deep = 10 if thorough else 7
+    g1_deep = 9 if thorough else 7
     for nlname in NLS:
         for pre in payloads(nlname, 2, 2):
             tasks.append(("task_single", (b"b", nlname, pre, g1_len[nlname], False, False, "field")))
@@ -671,19 +671,22 @@ def _tasks(tier, seed):
     for nlname in NLS:
         for pre in payloads(nlname, 1, 1):
             tasks.append(("task_single", (b"b", nlname, pre, g2, True, True, "field")))
-            tasks.append(("task_single", (b"b", nlname, pre, g2 - 1, True, True, "file")))
+            tasks.append(("task_single", (b"b", nlname, pre, 3 if thorough else 2, True, True, "file")))
         tasks.append(("task_single", (b"b", nlname, b"", 0, True, True, "field")))
         tasks.append(("task_single", (b"b", nlname, b"", 0, True, True, "file")))
     # G3: multi-part
     m2, m3 = (3, 2) if thorough else (2, 1)
     for nlname in NLS:
         for first in _pl_small(nlname, m2):
-            tasks.append(("task_multi", (b"b", nlname, first, 2, m2, False, thorough)))
+            tasks.append(("task_multi", (b"b", nlname, first, 2, m2, False, False)))
+        if thorough:
+            for first in _pl_small(nlname, 2):
+                tasks.append(("task_multi", (b"b", nlname, first, 2, 2, False, True)))
         for first in _pl_small(nlname, 1):
             # 3-way splits: quick = second payload body-less/empty/one newline byte; thorough = all length<=1
             tasks.append(("task_multi", (b"b", nlname, first, 2, 1 if thorough else -1, True, True)))
         for first in _pl_small(nlname, m3):
-            tasks.append(("task_multi", (b"b", nlname, first, 3, m3, False, False)))
+            tasks.append(("task_multi", (b"b", nlname, first, 3, 1, False, False)))
     # G4: corpus
     ncorp = len(corpus(tier))
     step = 6
@@ -691,8 +694,8 @@ def _tasks(tier, seed):
         tasks.append(("task_corpus", (tier, lo, lo + step, seed)))
     tasks.append(("task_padding", None))
     if thorough:
-        for i in range(96):
-            tasks.append(("task_random", (seed, i, 60)))
+        for i in range(64):
+            tasks.append(("task_random", (seed, i, 45)))
     return tasks
 
 
@@ -700,19 +703,19 @@ def _domain(tier):
     t = tier == "thorough"
     d = ("boundary b'b': 1 part, every payload over {CR,LF,'-','b','x'} of length<=%s and over {CR,LF,'x'} of "
          "length<=%s (bare-LF / bare-CR framing: same alphabets without the other newline kind) x all 2-way splits + "
-         "byte-at-a-time; length<=%s also x all 3-way "
+         "byte-at-a-time; length<=%s (as a file part with Content-Type header: length<=%s) also x all 3-way "
          "splits, every buffer_size 1..len+1 and short-read schedules of MultiPartParser; boundary b'bb' length<=%s "
          "(file parts); 2 parts (field+file, payloads length<=%s or body-less) x 2-way, (two fields, %s) x 3-way; 3 parts "
-         "(length<=%s or body-less, repeated field name) x 2-way; corpus (0 parts, preamble/epilogue, optional first "
+         "(first length<=%s, others length<=1, or body-less; repeated field name) x 2-way; corpus (0 parts, preamble/epilogue, optional first "
          "line break, padding of 1-2 blanks, extra and folded headers, long lines 20..200, binary, boundaries of 2/37/70 bytes and with regex "
          "metacharacters, with near-copies) x 2-way, 3-way (len<=%s), byte-at-a-time, %s"
          "parse_form_data over short-reading wsgi.input; separate input class padding_long (9..40 blanks of transport "
          "padding). Check names carry the input class (plain | nl_payload | bodyless | padding_long). Payloads that themselves contain a delimiter line are not bodies of the intended shape and are "
          "skipped (counted in skipped_out_of_domain)." % (
-             (7, 10, 5, 6, 3, "both length<=1", 2, 400, "40 seeded random k-way splits, ") if t else
-             (5, 7, 3, 4, 2, "first length<=1, second in {body-less, empty, CR, LF}", 1, 110, "")))
+             (7, 9, 5, 3, 6, 3, "both length<=1", 2, 400, "40 seeded random k-way splits, ") if t else
+             (5, 7, 3, 2, 4, 2, "first length<=1, second in {body-less, empty, CR, LF}", 1, 110, "")))
     if t:
-        d += (" Plus 5760 seeded random bodies (1-4 parts, 5 boundaries, payloads of up to 12 atoms incl. NUL/0xFF/"
+        d += (" Parser buffer sizes also for all 2-part bodies with payloads of length<=2. Plus 2880 seeded random bodies (1-4 parts, 5 boundaries, payloads of up to 12 atoms incl. NUL/0xFF/"
               "near-boundaries) x 2-way, bytewise, 3-way (len<=130), 30 random k-way splits, parser buffer sizes "
               "(len<=300).")
     return d
